@@ -434,9 +434,109 @@ def h_loop_addresses():
     return ['loop_addresses', tuple(order), qpos]
 
 
+def h_two_timeouts(order):
+    """three IKE_SAs in the table: two towards peers that never answer (started by kernel ACQUIREs in the same second, so they are given up in the SAME
+    sweep of main_loop) and an established one with a live peer, in the table order `order`: after the give-up exactly the two dead ones are gone
+    (with their kernel SAs), the live one is untouched and still answers"""
+    import copy
+    from symx import core
+    from ipaddress import ip_address, ip_network
+    eng = core.engine()
+    cf, ic, ik, m = MODS['configuration'], MODS['ikesacontroller'], MODS['ikesa'], MODS['message']
+    S = ik.IkeSa.State
+    world.ENV.reset()
+    IP3, IP4 = ip_address('192.168.0.3'), ip_address('192.168.0.4')
+    base = world.conf_dict()
+    d = {}
+    for k, (peer, idx) in enumerate(((world.IP1, 1), (IP3, 3), (IP4, 4))):
+        c = copy.deepcopy(base['bob'])
+        c.update(my_addr=str(world.IP2), peer_addr=str(peer))
+        c['protect'][0].update(index=idx, peer_port=0)
+        d[f'to{k}'] = c
+        c2 = copy.deepcopy(base['alice'])
+        c2.update(my_addr=str(peer), peer_addr=str(world.IP2))
+        c2['protect'][0].update(index=10 + idx, peer_port=0)
+        d[f'from{k}'] = c2
+    conf = cf.Configuration([world.IP1, world.IP2, IP3, IP4], d)
+    E = world.Endpoint('D', None)
+    with E:
+        ctl = ic.IkeSaController(my_addrs=[world.IP2], configuration=conf)
+    E.obj = ctl
+    TS = m.TrafficSelector
+    live_peer = ik.IkeSa(is_initiator=True, peer_spi=b'\0' * 8, configuration=conf.get_ike_configuration(IP4, world.IP2), my_addr=IP4, peer_addr=world.IP2)
+    LP = world.Endpoint('P4', live_peer)
+
+    def live_handshake():
+        x = LP.call(live_peer.process_acquire, TS.from_network(ip_network(f'{IP4}/32'), 8765, TS.IpProtocol.TCP), TS.from_network(ip_network(f'{world.IP2}/32'), 23, TS.IpProtocol.TCP), 14)
+        for _ in range(4):
+            with E:
+                r = ctl.dispatch_message(x, world.IP2, IP4)
+            x = LP.call(live_peer.process_message, r) if r is not None else None
+            if x is None:
+                break
+
+    def dead(peer, idx):
+        return {'kind': 'xfrm', 'data': world.acquire_bytes(world.IP2, peer, idx, sport=23, dport=7000 + idx)}
+    events = []
+    if order == 'live_last':
+        events = [dead(world.IP1, 1), dead(IP3, 3)]
+    elif order == 'live_first':
+        live_handshake()
+        events = [dead(world.IP1, 1), dead(IP3, 3)]
+    else:
+        events = [dead(world.IP1, 1)]
+    lp = world.Loop(E, tick_s=0)
+    lp.run(events)
+    if order == 'live_last':
+        live_handshake()
+    elif order == 'live_middle':
+        live_handshake()
+        lp = world.Loop(E, tick_s=0)
+        lp.run([dead(IP3, 3)])
+    live = [e for e in ctl.ike_sas if e.peer_addr == IP4]
+    if len(ctl.ike_sas) != 3 or len(live) != 1 or live[0].state != S.ESTABLISHED:
+        return {'class': ['two_timeouts'], 'violation': f'set-up: table {[(str(e.peer_addr), e.state.name) for e in ctl.ike_sas]}'}
+    live = live[0]
+    live.start_dpd_at = world.ENV.now + 10 ** 6          # the live IKE_SA stays quiet during the sweep
+    lp = world.Loop(E, tick_s=1)
+    try:
+        lp.run([{'kind': 'tick'} for _ in range(30)])
+    except Exception as ex:      # noqa
+        return {'class': ['two_timeouts'], 'violation': f'main_loop terminated with {type(ex).__name__}: {ex}'}
+    states = [(str(e.peer_addr), e.state.name) for e in ctl.ike_sas]
+    if [e for e in ctl.ike_sas if e is not live]:
+        return {'class': ['two_timeouts'], 'violation': f'table order {order}: 30 s after two requests to silent peers the table still holds {states}'}
+    if not any(e is live for e in ctl.ike_sas):
+        return {'class': ['two_timeouts'], 'violation': f'table order {order}: giving up the two dead IKE_SAs also removed the established IKE_SA of a live peer (table {states})'}
+    bad = table_invariant_ctl(ctl) + world.sad_invariant(ctl, E.kernel)
+    if bad:
+        return {'class': ['two_timeouts'], 'violation': f'table order {order}: ' + '; '.join(bad)}
+    # the live peer still gets answers
+    world.ENV.now = live_peer.start_dpd_at + 3600
+    probe = LP.call(live_peer.check_dead_peer_detection_timer)
+    with E:
+        ans = ctl.dispatch_message(probe, world.IP2, IP4)
+    if ans is None:
+        return {'class': ['two_timeouts'], 'violation': f'table order {order}: the live peer no longer gets an answer to its liveness check'}
+    return ['two_timeouts', order]
+
+
+def table_invariant_ctl(ctl):
+    S = MODS['ikesa'].IkeSa.State
+    bad = []
+    if len(set(id(e) for e in ctl.ike_sas)) != len(ctl.ike_sas):
+        bad.append('an IKE_SA is listed twice')
+    if any(e.state == S.DELETED for e in ctl.ike_sas):
+        bad.append('an IKE_SA in state DELETED is still listed')
+    return bad
+
+
 def build_instances(tier):
     inst = []
     nat = common.native_of
+    for order in ('live_last', 'live_first', 'live_middle'):
+        inst.append(Instance(f'two IKE_SAs given up in the same sweep, {order}', h_two_timeouts, (order,), native=nat(h_two_timeouts), engine_kw={'max_ticks': 10 ** 7},
+                             must_reach=[('ok', lambda o: o[0] == 'two_timeouts')]))
     inst.append(Instance('main_loop listening on two addresses', h_loop_addresses, (), native=nat(h_loop_addresses), engine_kw={'max_ticks': 10 ** 7}))
     inst.append(Instance('late datagram after a retransmission timeout in main_loop', h_timeout, ('probe',), native=nat(h_timeout),
                          must_reach=[('dropped', lambda o: o == ['timeout', 'dropped'])]))
